@@ -239,6 +239,22 @@ class Target:
         for name in ('metric(N1,1)', 'alert-cond(on)', 'component(vmd0,on)', 'location(1)', 'rt(1,2,3)', 'update-descr(CH)',
                      'operational(dis)'):
             attempt(lambda name=name: A.EVENT_BY_NAME[name](p))
+
+        def two_metrics():
+            with p.mdib.metric_state_transaction() as tr:
+                for h in (A.NUM1, A.NUM2):
+                    st = tr.get_state(h)
+                    if st.MetricValue is None:
+                        st.mk_metric_value()
+                    st.MetricValue.Value = Decimal(9)
+        attempt(two_metrics)                                   # a report with two states
+
+        def two_components():
+            with p.mdib.component_state_transaction() as tr:
+                for h in (A.CH, A.VMD):       # the state whose class has extra members comes second
+                    tr.get_state(h).OperatingHours = 11
+        attempt(two_components)                                # a component report with two states of different classes
+        attempt(lambda: A.EVENT_BY_NAME['location(2)'](p))     # a context report with two states (old one disassociated)
         subs = list(c.subscription_mgr.subscriptions.values())
         for sub in subs:
             attempt(lambda sub=sub: sub.renew(30))
@@ -253,7 +269,8 @@ class Target:
             if side == 'consumer':
                 service = 'notify' if not service.endswith('_e') else 'end'
             depth = 'sub' if (side == 'provider' and len(els) > 3) else ''
-            key = f'{side}:{service}{"/" + depth if depth else ""}:{_tag(msg.data)}'
+            multi = '#multi' if len(re.findall(rb'<[A-Za-z0-9_]*:?(?:MetricState|ContextState|AlertState|ComponentState)[ >]', msg.data)) > 1 else ''
+            key = f'{side}:{service}{"/" + depth if depth else ""}:{_tag(msg.data)}{multi}'
             if key not in corpus:
                 corpus[key] = {'key': key, 'side': side, 'path': msg.path, 'data': msg.data, 'ok_status': msg.status}
         return corpus
